@@ -6,12 +6,20 @@ package obiformats
 // chunk channel, the re-sequencing of chunks parsed out of order and (end-to-end scenario) the
 // formatting workers and the re-sequencing writer run under the controlled scheduler: every
 // interleaving within the bounds must deliver exactly the records of the file, in file order.
+//
+// Scenarios "entry-<format>": the exported entry points themselves, ReadFasta / ReadFastq / ReadGenbank /
+// ReadEMBL(reader, options) with 1..3 parser workers, with and without OptionsFullFileBatch — the
+// goroutine set-up and tear-down of the entry point (worker registration, WaitAndClose, SortBatches,
+// CompleteFileIterator) is part of what is explored. The production read buffers (1 MiB / 128 MiB) are
+// not parameters: these scenarios see one chunk; the multi-chunk races are the hand-wired scenarios.
 
 import (
 	"bytes"
 	"encoding/json"
 	"fmt"
 	"io"
+	"os"
+	"sort"
 	"strings"
 	"testing"
 
@@ -22,14 +30,15 @@ import (
 )
 
 type c01aParam struct {
-	Format  string `json:"format"` // fasta, fastq, genbank, embl, fasta-to-fasta
-	NRec    int    `json:"nrec"`
-	Buf     int    `json:"buffer_size"`
-	Workers int    `json:"workers"`
-	Mode    string `json:"mode"`
-	Bound   int    `json:"bound"`
-	Policy  int    `json:"policy"`
-	Choices []int  `json:"choices,omitempty"`
+	Format    string `json:"format"`                    // fasta, fastq, genbank, embl, fasta-to-fasta, entry-{fasta,fastq,genbank,embl}
+	FullBatch bool   `json:"full_file_batch,omitempty"` // entry-*: OptionsFullFileBatch(true)
+	NRec      int    `json:"nrec"`
+	Buf       int    `json:"buffer_size"`
+	Workers   int    `json:"workers"`
+	Mode      string `json:"mode"`
+	Bound     int    `json:"bound"`
+	Policy    int    `json:"policy"`
+	Choices   []int  `json:"choices,omitempty"`
 }
 
 type c01aRec struct{ id, seq, qual, taxid string }
@@ -54,6 +63,7 @@ func c01aRecords(n int) []c01aRec {
 }
 
 func c01aFile(format string, recs []c01aRec) string {
+	format = strings.TrimPrefix(format, "entry-")
 	var sb strings.Builder
 	for _, r := range recs {
 		switch format {
@@ -91,7 +101,82 @@ func (m *c01aMem) Write(p []byte) (int, error) { return m.buf.Write(p) }
 func (m *c01aMem) Close() error                { m.closed++; return nil }
 
 // c01aBody builds reader -> parser workers -> SortBatches (-> writer) and returns what was delivered.
+// c01aLines prints the records of a batch the way c01aExpected does.
+func c01aLines(sb *strings.Builder, b obiiter.BioSequenceBatch) {
+	for _, s := range b.Slice() {
+		fmt.Fprintf(sb, "%s %s", s.Id(), s.String())
+		if s.HasQualities() {
+			q := s.Qualities()
+			qs := make([]byte, len(q))
+			for i := range q {
+				qs[i] = q[i] + 33
+			}
+			fmt.Fprintf(sb, " %s", qs)
+		}
+		if t, ok := s.GetAttribute("taxid"); ok {
+			fmt.Fprintf(sb, " taxid=%v", t)
+		}
+		sb.WriteString("\n")
+	}
+}
+
+// c01aEntry reads the file through the exported entry point and returns what was delivered.
+func c01aEntry(p c01aParam, data string) string {
+	opts := []WithOption{OptionFastSeqDoNotParseHeader(), OptionsParallelWorkers(p.Workers), OptionsSource("src"), OptionsReadQualities(true)}
+	if p.FullBatch {
+		opts = append(opts, OptionsFullFileBatch(true))
+	}
+	var it obiiter.IBioSequence
+	var err error
+	sorted := false // does the entry point promise batches in file order?
+	switch p.Format {
+	case "entry-fasta":
+		it, err = ReadFasta(strings.NewReader(data), opts...)
+		sorted = true
+	case "entry-fastq":
+		it, err = ReadFastq(strings.NewReader(data), opts...)
+		sorted = true
+	case "entry-genbank":
+		it, err = ReadGenbank(strings.NewReader(data), opts...)
+	case "entry-embl":
+		it, err = ReadEMBL(strings.NewReader(data), opts...)
+	}
+	if err != nil {
+		return "error: " + err.Error()
+	}
+	type bt struct {
+		order int
+		lines string
+	}
+	var bs []bt
+	var sb strings.Builder
+	for it.Next() {
+		b := it.Get()
+		if sorted && b.Order() != len(bs) {
+			fmt.Fprintf(&sb, "!! batch %d delivered at rank %d\n", b.Order(), len(bs))
+		}
+		var l strings.Builder
+		c01aLines(&l, b)
+		bs = append(bs, bt{b.Order(), l.String()})
+	}
+	if p.FullBatch && len(bs) > 1 {
+		fmt.Fprintf(&sb, "!! full file batch mode delivered %d batches\n", len(bs))
+	}
+	// the flat-file readers leave the ordering of their batches to the consumer (Order numbers)
+	sort.SliceStable(bs, func(i, j int) bool { return bs[i].order < bs[j].order })
+	for i, b := range bs {
+		if i > 0 && bs[i-1].order == b.order {
+			fmt.Fprintf(&sb, "!! two batches carry order %d\n", b.order)
+		}
+		sb.WriteString(b.lines)
+	}
+	return sb.String()
+}
+
 func c01aBody(p c01aParam, data string) string {
+	if strings.HasPrefix(p.Format, "entry-") {
+		return c01aEntry(p, data)
+	}
 	out := obiiter.MakeIBioSequence()
 	var splitter LastSeqRecord
 	switch p.Format {
@@ -136,21 +221,7 @@ func c01aBody(p c01aParam, data string) string {
 			fmt.Fprintf(&sb, "!! batch %d delivered at rank %d\n", b.Order(), next)
 		}
 		next++
-		for _, s := range b.Slice() {
-			fmt.Fprintf(&sb, "%s %s", s.Id(), s.String())
-			if s.HasQualities() {
-				q := s.Qualities()
-				qs := make([]byte, len(q))
-				for i := range q {
-					qs[i] = q[i] + 33
-				}
-				fmt.Fprintf(&sb, " %s", qs)
-			}
-			if t, ok := s.GetAttribute("taxid"); ok {
-				fmt.Fprintf(&sb, " taxid=%v", t)
-			}
-			sb.WriteString("\n")
-		}
+		c01aLines(&sb, b)
 	}
 	return sb.String()
 }
@@ -164,12 +235,13 @@ func c01aExpected(p c01aParam, recs []c01aRec) string {
 		}
 		return sb.String()
 	}
+	base := strings.TrimPrefix(p.Format, "entry-")
 	for _, r := range recs {
 		fmt.Fprintf(&sb, "%s %s", r.id, r.seq)
-		if p.Format == "fastq" {
+		if base == "fastq" {
 			fmt.Fprintf(&sb, " %s", r.qual)
 		}
-		if p.Format == "genbank" || p.Format == "embl" {
+		if base == "genbank" || base == "embl" {
 			t := r.taxid
 			if t == "" {
 				t = "1" // records without taxon cross-reference get taxid 1
@@ -179,6 +251,18 @@ func c01aExpected(p c01aParam, recs []c01aRec) string {
 		sb.WriteString("\n")
 	}
 	return sb.String()
+}
+
+// c01aSite: first components of the violation keys of a scenario.
+func c01aSite(p c01aParam) string {
+	if base, ok := strings.CutPrefix(p.Format, "entry-"); ok {
+		site := "reader-entry/" + base
+		if p.FullBatch {
+			site += "+full-file-batch"
+		}
+		return site
+	}
+	return "reader-workers/" + p.Format
 }
 
 func TestVerifC01A(t *testing.T) {
@@ -229,7 +313,7 @@ func TestVerifC01A(t *testing.T) {
 		msg := check(p, recs)(x)
 		r.Eval(1)
 		if msg != "" {
-			r.Violate("reader-workers/"+p.Format+"/replay", msg, p)
+			r.Violate(c01aSite(p)+"/replay", msg, p)
 		}
 		fmt.Println("replay:", msg)
 		return
@@ -258,8 +342,43 @@ func TestVerifC01A(t *testing.T) {
 			}
 		}
 	}
+	// the exported entry points: 2-record files, 1..3 workers, with / without full file batch
+	for _, f := range []string{"entry-fasta", "entry-fastq", "entry-genbank", "entry-embl"} {
+		flat := f == "entry-genbank" || f == "entry-embl"
+		for _, w := range []int{1, 2, 3} {
+			if w == 3 && !verifkit.Thorough() {
+				continue
+			}
+			for _, fb := range []bool{false, true} {
+				for pol := 0; pol <= 1; pol++ {
+					if flat && pol == 1 && !verifkit.Thorough() {
+						continue // quick: one default scheduler for the 128 MiB readers (each execution costs 30-60 ms)
+					}
+					bound := 1
+					if verifkit.Thorough() && !(flat && w == 3) {
+						bound = 2 // (ReadGenbank / ReadEMBL with 3 workers stay at 1: 128 MiB are allocated per execution)
+					}
+					jobs = append(jobs, c01aParam{Format: f, FullBatch: fb, NRec: 2, Buf: -1, Workers: w, Mode: "delay", Bound: bound, Policy: pol})
+				}
+				// all interleavings (thorough, one worker): the 1 MiB readers only (ReadGenbank / ReadEMBL allocate 128 MiB per
+				// call); with two workers the full exploration of an entry point exceeds 2 x 10^5 executions
+				if !flat && w == 1 && verifkit.Thorough() {
+					jobs = append(jobs, c01aParam{Format: f, FullBatch: fb, NRec: 2, Buf: -1, Workers: w, Mode: "full"})
+				}
+			}
+		}
+	}
+	if only := os.Getenv("C01A_ONLY"); only != "" { // development aid (never set by ./check): keep the scenarios whose name starts with it
+		var keep []c01aParam
+		for _, p := range jobs {
+			if strings.HasPrefix(p.Format, only) {
+				keep = append(keep, p)
+			}
+		}
+		jobs = keep
+	}
 	r.Bound("jobs", len(jobs))
-	r.Bound("exploration", "delay bounding (quick 1, thorough 2) from two default schedulers for every (format, records, buffer, workers); full (all interleavings, sleep sets + HB cache) for 2-record files")
+	r.Bound("exploration", "delay bounding (quick 1, thorough 2) from two default schedulers for every (format, records, buffer, workers); full (all interleavings, sleep sets + HB cache) for 2-record files; entry points Read{Fasta,Fastq,Genbank,EMBL}(reader): delay bounding for 1..3 workers x full file batch off/on, full for one worker (thorough, 1 MiB readers)")
 	for k, p := range jobs {
 		if !r.Mine(k) {
 			continue
@@ -276,9 +395,11 @@ func TestVerifC01A(t *testing.T) {
 				longest = l
 			}
 		}
-		if p.Buf == 0 {
+		switch p.Buf {
+		case -1: // entry points: the production buffer, not a parameter
+		case 0:
 			p.Buf = longest + 2
-		} else {
+		default:
 			p.Buf = 2*longest + 3
 		}
 		if k < 3 {
@@ -305,7 +426,7 @@ func TestVerifC01A(t *testing.T) {
 		seen := map[string]bool{}
 		for _, v := range st.Violations {
 			parts := strings.SplitN(v.Desc, "|", 2)
-			key := "reader-workers/" + p.Format + "/" + parts[0]
+			key := c01aSite(p) + "/" + parts[0]
 			if (p.Format == "genbank" || p.Format == "embl") && parts[0] == "differs" && strings.Contains(parts[1], "taxid=") {
 				key += ":taxid"
 			}
@@ -315,7 +436,7 @@ func TestVerifC01A(t *testing.T) {
 			seen[key] = true
 			q := p
 			q.Choices = v.Choices
-			r.Violate(key, fmt.Sprintf("%s nrec=%d buffer=%d workers=%d mode=%s policy=%d schedule=%v: %s", p.Format, p.NRec, p.Buf, p.Workers, p.Mode, p.Policy, v.Choices, parts[1]), q)
+			r.Violate(key, fmt.Sprintf("%s nrec=%d buffer=%d workers=%d fullfilebatch=%v mode=%s policy=%d schedule=%v: %s", p.Format, p.NRec, p.Buf, p.Workers, p.FullBatch, p.Mode, p.Policy, v.Choices, parts[1]), q)
 		}
 	}
 	r.RequireNonVacuous("outcome_completed")
